@@ -79,6 +79,22 @@ def small_configs(k, ntags, with_dec):
                 yield cfg
 
 
+def dead_decorator_configs():
+    """decorators nobody is decorated by (the legal tag "*", a tag no service carries, a tag equal to a service name): their
+    arguments are edges of nothing"""
+    names = ["s0", "s1"]
+    for tag in ("*", "nobody", "s0"):
+        for deps in itertools.product(range(4), repeat=2):
+            for carry in range(4):
+                for dargs in (["@s0"], ["@s1"], ["!tagged t0"], ["@s0", "!tagged t0", "%p%"]):
+                    svcs = {}
+                    for i, n in enumerate(names):
+                        svcs[n] = {"constructor": "fx.NewA", "arguments": ["@" + m for j, m in enumerate(names) if deps[i] >> j & 1 and j > i]}
+                        if carry >> i & 1:
+                            svcs[n]["tags"] = ["t0"]
+                    yield {"parameters": {"p": 1}, "services": svcs, "decorators": [{"tag": tag, "decorator": "fx.Dec1", "arguments": dargs}]}
+
+
 def param_configs():
     names = ["p0", "p1", "p2"]
     for masks in itertools.product(range(8), repeat=3):
@@ -107,7 +123,7 @@ def random_graph(rng):
         svcs[n] = s
     cfg = {"parameters": {"p": rng.choice(["x", "%q%", "%r%"]), "q": rng.choice(["y", "%r%", "%p%", "a%q%"]), "r": rng.choice(["z", "%p%"])}, "services": svcs}
     if rng.random() < 0.5:
-        cfg["decorators"] = [{"tag": rng.choice(tags), "decorator": "fx.Dec1", "arguments": [rng.choice(["@" + rng.choice(names), "!tagged " + rng.choice(tags), "%p%"])]} for _ in range(rng.randint(1, 2))]
+        cfg["decorators"] = [{"tag": rng.choice(tags + tags + ["*", rng.choice(names)]), "decorator": "fx.Dec1", "arguments": [rng.choice(["@" + rng.choice(names), "!tagged " + rng.choice(tags), "%p%"])]} for _ in range(rng.randint(1, 2))]
     return cfg
 
 
@@ -116,10 +132,11 @@ def run(ctx, nrand=None):
     if ctx.quick:
         cases += list(small_configs(2, 1, True))
         cases += list(itertools.islice(param_configs(), 0, 512, 3))
+        cases += list(dead_decorator_configs())
         nrand = nrand or 1500
     else:
         cases += list(small_configs(2, 1, True)) + list(small_configs(2, 2, False)) + list(param_configs())
-        cases += list(itertools.islice(small_configs(3, 1, True), 0, None, 7))
+        cases += list(itertools.islice(small_configs(3, 1, True), 0, None, 7)) + list(dead_decorator_configs())
         nrand = nrand or 20000
     cases += [random_graph(ctx.rng) for _ in range(nrand)]
     cases += [gen.gen_config_wild(ctx.rng) for _ in range(nrand // 2)]
